@@ -75,10 +75,15 @@ CHECKS = {
          "Seeded search over data sets (on grid lines / boundary, class labels), lambda, mass lumping, analytic (rarely numeric) entries and benefit schedules of the real dimension-wise loop. For every schedule five executions are compared after every evaluation (scheme, surpluses per component grid, interpolated densities): reuse off vs on (default threshold; a share of configurations reaches component grids beyond 200 points), small-grid vs large-grid implementation everywhere (threshold moved by SPARSESPACE_VERIF_DE_THRESHOLD), and reuse on with the right-hand-side reuse path forced. The broken right-hand-side reuse path is a known finding keyed by 'path active'; the matrix-entry cache and the implementation equivalence stay fully armed.",
          "Trusted: the reuse-off run as reference (its correctness is C16's subject, not applicable here). Bound 1e-8 relative for analytic entries, 2e-2 for numeric entries (calibrated quadrature accuracy).",
          "DESIGN.md section 5, C17"),
+ "C15": ("uq_sim", "exploration",
+         "deterministic simulation: refinement histories of the real dimension-wise strategy on the weighted grid under simulated benefit answers, with the original and the affinely transformed model carried as components of one vector-valued model",
+         "Seeded search over distribution families per dimension (uniform, triangle, normal; finite and infinite support; equal descriptions in several dimensions with different intervals), boundary flag, affine map and benefit schedules. After every evaluation: E[cf+e]=cE[f]+e, Var[cf+e]=c^2 Var[f], Var>=0, constant model -> constant / zero variance, all on the same refined grid. After every refinement step every performed split lies strictly inside its interval and halves the probability within the measured round-trip accuracy of the family's inverse cdf (underflowing tails: strictly inside only). The 1-D weight clauses are pure functions and are evaluated as a stateless side-oracle on every 1-D grid reached (counted separately).",
+         "Trusted: scipy/chaospy cdf and ppf as the definition of the distributions. Known finding: truncated normal mass with boundary points (keyed by family, finite interval, boundary).",
+         "DESIGN.md section 5, C15"),
 }
 
 _P = "claimed by DESIGN.md but the check is not built yet in this tree; listed here until its engine is registered"
-PENDING = {k: _P for k in ["C15"]}
+PENDING = {}
 
 def main():
     checks = []
